@@ -87,23 +87,82 @@ func init() {
 		Doc:   "for every field the merger and the builder record the dictionary offset and both doc-value offsets on every successful path: each successful return of persistMergedRestField is dominated by writeMergedDict and buildMergedDocVals, each successful return of buildMergedDocVals / writeDictsField by stores to both doc-value offset slots (and writeDictsField's dictionary slot)",
 		Run: func(c *Ctx, scope string, r *Report) {
 			pm := c.MustFn("persistMergedRestField")
-			for _, callee := range []string{"writeMergedDict", "buildMergedDocVals"} {
-				key := fnName(pm) + "/always-" + callee
-				calls := callsOf(pm, callee)
-				ok := len(calls) > 0
-				for _, rb := range successReturns(pm) {
+			// the unit is one iteration of the per-field loop of the caller: however the phases of a
+			// field are distributed over persistMergedRestField and that loop, every iteration that
+			// goes on to the next field has run both
+			var runsBlocks func(fn *ssa.Function, callee string, depth int) map[*ssa.BasicBlock]bool
+			alwaysRuns := func(fn *ssa.Function, callee string, depth int) bool {
+				via := runsBlocks(fn, callee, depth)
+				if len(via) == 0 {
+					return false
+				}
+				for _, rb := range successReturns(fn) {
 					dom := false
-					for _, call := range calls {
-						if call.Block() == rb || call.Block().Dominates(rb) {
+					for b := range via {
+						if b == rb || b.Dominates(rb) {
 							dom = true
 						}
 					}
 					if !dom {
+						return false
+					}
+				}
+				return true
+			}
+			runsBlocks = func(fn *ssa.Function, callee string, depth int) map[*ssa.BasicBlock]bool {
+				out := map[*ssa.BasicBlock]bool{}
+				for _, b := range fn.Blocks {
+					for _, ins := range b.Instrs {
+						call, ok := ins.(*ssa.Call)
+						if !ok {
+							continue
+						}
+						sc := call.Call.StaticCallee()
+						if sc == nil || !c.inRoot(sc) {
+							continue
+						}
+						if fnName(sc) == callee || (depth < 3 && sc.Blocks != nil && sc != fn && alwaysRuns(sc, callee, depth+1)) {
+							out[b] = true
+						}
+					}
+				}
+				return out
+			}
+			var loopFn *ssa.Function
+			var hdr *ssa.BasicBlock
+			for _, site := range c.callsTo(pm) {
+				for x := site.Block(); x != nil; x = x.Idom() {
+					if isLoopHeader(x) {
+						loopFn, hdr = site.Parent(), x
+						break
+					}
+				}
+			}
+			for _, callee := range []string{"writeMergedDict", "buildMergedDocVals"} {
+				key := fnName(pm) + "/always-" + callee
+				if hdr == nil {
+					r.undecided(key, fnName(pm), c.pos(pm.Pos()), "the per-field loop that calls "+fnName(pm)+" was not found")
+					continue
+				}
+				via := runsBlocks(loopFn, callee, 0)
+				paths, complete := iterPaths(hdr, hdr.Succs[0], loopBody(hdr), 4000)
+				ok := complete && len(via) > 0
+				for _, p := range paths {
+					if p.exit {
+						continue
+					}
+					passes := false
+					for _, b := range p.blocks {
+						if via[b] {
+							passes = true
+						}
+					}
+					if !passes {
 						ok = false
 					}
 				}
 				if ok {
-					r.ok(key, fnName(pm), c.pos(pm.Pos()), "every successful return ran "+callee+" for the field")
+					r.ok(key, fnName(pm), c.pos(pm.Pos()), "every iteration of the per-field loop that goes on to the next field ran "+callee)
 				} else {
 					r.bad(key, fnName(pm), c.pos(pm.Pos()), "a field can be finished successfully without "+callee+": its offsets in the fields/doc-value index stay 0 and the loader misparses them")
 				}
@@ -333,17 +392,77 @@ func init() {
 				r.undecided(key, fnName(fn), c.pos(fn.Pos()), "too many paths")
 				return
 			}
+			// a helper that does the appending contributes what it appends: its paths must
+			// each grow every slice by the same amount
 			kinds := map[string]bool{}
+			bad := ""
+			helperVec := map[*ssa.Function][]map[string]int{}
+			appendsOf := func(ins ssa.Instruction) (string, *ssa.Function) {
+				call, ok := ins.(*ssa.Call)
+				if !ok {
+					return "", nil
+				}
+				if bi, ok := call.Call.Value.(*ssa.Builtin); ok && bi.Name() == "append" {
+					return typeOf(call), nil
+				}
+				if sc := call.Call.StaticCallee(); sc != nil && c.inRoot(sc) && sc.Blocks != nil {
+					return "", sc
+				}
+				return "", nil
+			}
 			for b := range body {
 				for _, ins := range b.Instrs {
-					if call, ok := ins.(*ssa.Call); ok {
-						if bi, ok := call.Call.Value.(*ssa.Builtin); ok && bi.Name() == "append" {
-							kinds[typeOf(call)] = true
+					k, h := appendsOf(ins)
+					if k != "" {
+						kinds[k] = true
+					}
+					if h == nil || helperVec[h] != nil {
+						continue
+					}
+					all := map[*ssa.BasicBlock]bool{}
+					for _, hb := range h.Blocks {
+						all[hb] = true
+					}
+					hp, ok := iterPaths(nil, h.Blocks[0], all, 2000)
+					if !ok {
+						continue
+					}
+					var vecs []map[string]int
+					seen := map[string]bool{}
+					for _, p := range hp {
+						cnt := map[string]int{}
+						for _, pb := range p.blocks {
+							for _, pi := range pb.Instrs {
+								if k2, _ := appendsOf(pi); k2 != "" {
+									cnt[k2]++
+									seen[k2] = true
+								}
+							}
+						}
+						vecs = append(vecs, cnt)
+					}
+					if len(seen) >= 2 { // a helper that grows several slices: part of the parallel structure
+						helperVec[h] = vecs
+						for _, v := range vecs {
+							for k2 := range v {
+								kinds[k2] = true
+							}
 						}
 					}
 				}
 			}
-			bad := ""
+			for h, vecs := range helperVec {
+				for _, v := range vecs {
+					first := -1
+					for k := range kinds {
+						if first < 0 {
+							first = v[k]
+						} else if v[k] != first {
+							bad = fmt.Sprintf("on a path through %s the parallel slices grow by different amounts: %v", fnName(h), v)
+						}
+					}
+				}
+			}
 			np := 0
 			for _, p := range paths {
 				if p.exit {
@@ -353,10 +472,8 @@ func init() {
 				cnt := map[string]int{}
 				for _, b := range p.blocks {
 					for _, ins := range b.Instrs {
-						if call, ok := ins.(*ssa.Call); ok {
-							if bi, ok := call.Call.Value.(*ssa.Builtin); ok && bi.Name() == "append" {
-								cnt[typeOf(call)]++
-							}
+						if k, _ := appendsOf(ins); k != "" {
+							cnt[k]++
 						}
 					}
 				}
@@ -852,6 +969,14 @@ func init() {
 										if ci, ok := ins.(ssa.CallInstruction); ok {
 											if s2 := ci.Common().StaticCallee(); s2 != nil && funcFullName(s2) == "bytes.(*Buffer).Reset" && accessPath(ci.Common().Args[0]) == bufPath {
 												return "fresh", true
+											}
+											// or a helper of the buffer's owner that resets it whenever it returns
+											if s2 := ci.Common().StaticCallee(); s2 != nil && c.inRoot(s2) && s2.Blocks != nil {
+												for ai, arg := range ci.Common().Args {
+													if owner := accessPath(arg); ai < len(s2.Params) && strings.HasPrefix(bufPath, owner+".") && mustResetBuffer(s2, s2.Params[ai].Name()+strings.TrimPrefix(bufPath, owner)) {
+														return "fresh", true
+													}
+												}
 											}
 										}
 										return "", false
@@ -1434,4 +1559,37 @@ func init() {
 			}
 		},
 	})
+}
+
+// mustResetBuffer: every return of fn is preceded by bytes.Buffer.Reset on the
+// buffer at the given access path.
+func mustResetBuffer(fn *ssa.Function, path string) bool {
+	var resets []*ssa.BasicBlock
+	for _, b := range fn.Blocks {
+		for _, ins := range b.Instrs {
+			if ci, ok := ins.(ssa.CallInstruction); ok {
+				if sc := ci.Common().StaticCallee(); sc != nil && funcFullName(sc) == "bytes.(*Buffer).Reset" && accessPath(ci.Common().Args[0]) == path {
+					resets = append(resets, b)
+				}
+			}
+		}
+	}
+	if len(resets) == 0 {
+		return false
+	}
+	for _, b := range fn.Blocks {
+		if _, ok := b.Instrs[len(b.Instrs)-1].(*ssa.Return); !ok {
+			continue
+		}
+		covered := false
+		for _, rb := range resets {
+			if rb == b || rb.Dominates(b) {
+				covered = true
+			}
+		}
+		if !covered {
+			return false
+		}
+	}
+	return true
 }
